@@ -141,7 +141,7 @@ pub fn enumerated() -> Vec<Scenario> {
 }
 
 pub fn run(ctx: &Ctx) -> i32 {
-    let (shards, cases) = ctx.tier.pick((8, 2000), (64, 20_000));
+    let (shards, cases) = ctx.tier.pick((16, 8000), (64, 20_000));
     let (mut stats, mut viol) = run_shards(ctx, "random", shards, cases, || scenario_strategy(FEATURES), check_scenario);
     let en = enumerated();
     let (s2, v2) = par_enumerate(ctx, "interleavings", en.len() as u64, |i, stats| {
